@@ -107,7 +107,14 @@ func (g *generator) varName() string {
 	return ""
 }
 
+// names that no program of the generator declares: they stay free wherever they are written
+var freeNames = []string{"event", "undefined", "eval", "window", "self", "globalThis", "name"}
+
 func (g *generator) ref() *ref {
+	if rapid.IntRange(0, 11).Draw(g.t, "freename") == 0 {
+		g.classes["free-special-name"]++
+		return &ref{name: rapid.SampledFrom(freeNames).Draw(g.t, "free")}
+	}
 	n := g.name("ref")
 	for s := g.s; s != nil; s = s.parent {
 		s.refsSeen[n] = true
@@ -541,6 +548,25 @@ func (g *generator) declList(kind string, mk func() string) *varDecl {
 		return nil
 	}
 	return v
+}
+
+// deepRefs: d nested blocks (or functions), each with a reference to the same name in front of the next one: the binding
+// is d scopes away from its last reference
+func (g *generator) deepRefs() node {
+	d := rapid.SampledFrom([]int{20, 100, 127, 128, 129, 130, 160}).Draw(g.t, "deepdepth")
+	r := g.ref()
+	funcs := rapid.Bool().Draw(g.t, "deepfuncs")
+	var inner node = &exprStmt{e: &ref{name: r.name}}
+	for i := 0; i < d; i++ {
+		body := []node{&exprStmt{e: &ref{name: r.name}}, inner}
+		if funcs {
+			inner = &exprStmt{e: &call{f: &group{items: []node{&funcExp{fn: &function{body: body}}}}}}
+		} else {
+			inner = &block{body: body}
+		}
+	}
+	g.classes["deep-references"]++
+	return inner
 }
 
 func (g *generator) stmt() node {
